@@ -432,6 +432,17 @@ fn run(c: &Case, oracle: &mut Vec<String>) -> String {
                             }).collect::<Vec<_>>().join(";") + "|" + &f
                         }).unwrap_or(s)
                     };
+                    // independent of the library's own parse: every chunk of a type the format does not define
+                    // must be in the output with identical bytes and in the same relative order
+                    let unknowns = |bytes: &[u8]| -> Vec<(Vec<u8>, Vec<u8>)> {
+                        const KNOWN: &[&[u8; 4]] = &[b"AHED", b"AEND", b"ANXT", b"FHED", b"PHSF", b"FDAT", b"FEND", b"SHED", b"SDAT",
+                            b"SEND", b"fSIZ", b"cTIM", b"mTIM", b"aTIM", b"fPRM", b"xATR"];
+                        scan(bytes).unwrap_or_default().into_iter().filter(|(_, t, _)| !KNOWN.iter().any(|k| *k == t))
+                            .map(|(_, t, d)| (t.to_vec(), d)).collect()
+                    };
+                    if unknowns(&b) != unknowns(&b1) {
+                        oracle.push("an unknown chunk was dropped, altered or reordered by decode -> encode".into());
+                    }
                     let (e0, e1) = (norm(entries_stream(&b)), norm(entries_stream(&b1)));
                     if e0 != e1 {
                         oracle.push("decode -> encode changed the meaning of an entry".into());
@@ -637,10 +648,10 @@ fn gen(prop: &str, tier: &str, seed: u64) -> Vec<String> {
                     for _ in 0..r.below(3) {
                         match r.below(3) {
                             0 => cs.push((b"SDAT".to_vec(), { let k = r.below(5) as usize; r.bytes(k) })),
-                            1 => cs.push((b"xyZw".to_vec(), { let k = r.below(5) as usize; r.bytes(k) })),
+                            1 => cs.push((unknown_type(&mut r), { let k = r.below(5) as usize; r.bytes(k) })),
                             _ => cs.push((b"SDAT".to_vec(), {
                                 let mut x = raw_chunk(b"FHED", &[0, 0, 0, 0, 0, 0, b'i']);
-                                x.extend(raw_chunk(b"unKn", b"?"));
+                                x.extend(raw_chunk(&unknown_type(&mut r), b"?"));
                                 x.extend(raw_chunk(b"FDAT", b"data"));
                                 x.extend(raw_chunk(b"FEND", b""));
                                 x
@@ -661,8 +672,8 @@ fn gen(prop: &str, tier: &str, seed: u64) -> Vec<String> {
                         2 => cs.push((b"cTIM".to_vec(), r.next().to_be_bytes().to_vec())),
                         3 => cs.push((b"fSIZ".to_vec(), { let k = r.below(6) as usize; r.bytes(k) })),
                         4 => cs.push((b"xATR".to_vec(), vec![0, 0, 0, 1, b'a' + r.below(3) as u8, 0, 0, 0, 1, r.next() as u8])),
-                        5 => cs.push((b"abCd".to_vec(), { let k = r.below(4) as usize; r.bytes(k) })),
-                        6 => cs.push((b"zzZz".to_vec(), { let k = r.below(4) as usize; r.bytes(k) })),
+                        5 => cs.push((unknown_type(&mut r), { let k = r.below(4) as usize; r.bytes(k) })),
+                        6 => cs.push((unknown_type(&mut r), { let k = r.below(4) as usize; r.bytes(k) })),
                         7 => cs.push((b"fPRM".to_vec(), {
                             let mut p = 7u64.to_be_bytes().to_vec();
                             p.push(1); p.push(b'u');
